@@ -101,7 +101,7 @@ class K:
 
     def int(self, name, ge=None, le=None, size=False):
         if size:
-            self.size_names.append((name, ge if ge is not None else 0))
+            self.size_names.append((name, ge if ge is not None else 0, le))
         if self.mode == "native" or (self.mode == "bounded" and size):
             if name in self.sizes:
                 v = int(self.sizes[name])
@@ -214,6 +214,7 @@ class K:
             yield from itertools.product(*[range(int(d)) for d in shape])
             return
         ctx = cur()
+        ctx.memo.setdefault("first_index_hyp", len(ctx.hyps))
         vs = []
         for q, d in enumerate(shape):
             v = z3.Int(f"{name}{q}${self.n_ensures}.{ctx.counter}")
